@@ -17,7 +17,7 @@ import itertools
 
 DEFAULT_FEAT = dict(
     subtypes=True, constants=True, neg=True, equality=True, numeric=True, when=True, forall_eff=True,
-    or_pre=False, forall_pre=False, bare_pre=False, nested_numeric=False, nested_cond=False, join_names=False, tiny_offsets=False, dense_quant=False, implicit_parent_types=False, many_constants=False,   # nested / quantified / unwrapped preconditions
+    or_pre=False, forall_pre=False, bare_pre=False, nested_numeric=False, nested_cond=False, join_names=False, tiny_offsets=False, dense_quant=False, implicit_parent_types=False, many_constants=False, object_params=False,   # nested / quantified / unwrapped preconditions
     cond_numeric=True,                       # numeric comparisons inside when/forall conditions
     child_first_types=False,                 # D10 finding profile
     repeated_call_objects=True, long_names=False,
@@ -75,7 +75,7 @@ def gen_domain(t, feat=None, multi_agent=False):
     pnames = t.shuffle(["p0", "p1", "p-2", "p_3", "pp", "p10"])
     for i in range(1 + t.draw(f["max_preds"])):
         ar = t.draw(4) if i else 1
-        preds[pnames[i]] = [t.pick(tnames) for _ in range(ar)]
+        preds[pnames[i]] = [("object" if f.get("object_params") and t.draw(6) == 0 else t.pick(tnames)) for _ in range(ar)]
     D["predicates"] = preds
     funcs = {}
     if f["numeric"]:
@@ -103,6 +103,9 @@ def gen_domain(t, feat=None, multi_agent=False):
             params = [(f"?x{j}", [n for n in tnames if n != "agent"][0]) for j in range(npar)]
         else:
             params = [(f"?x{j}", t.pick(tnames)) for j in range(npar)]
+        if f.get("object_params") and not long_names:
+            # the root type itself as a parameter type (a parameter that ranges over every object)
+            params = [(n, "object" if t.draw(5) == 0 else ty) for n, ty in params]
         if multi_agent:
             k = t.draw(len(params) + 1) if f.get("agent_anywhere", True) else 0
             params = params[:k] + [("?ag", "agent")] + params[k:]
@@ -429,7 +432,7 @@ def gen_problem(t, D, feat=None, agents=0):
             if hard and t.chance(1, 3):
                 fl[(fn,) + combo] = HARD_NUMBERS[t.draw(len(HARD_NUMBERS))]
             elif thresholds and t.chance(1, 3):
-                fl[(fn,) + combo] = thresholds[t.draw(len(thresholds))] + [0.00002, -0.00002, 0.0, 0.002, -0.002, 0.00002][t.draw(6)]
+                fl[(fn,) + combo] = thresholds[t.draw(len(thresholds))] + [0.00002, -0.00002, 0.0, 0.002, -0.002, 0.0005, -0.0005, 0.00002][t.draw(8)]
             else:
                 fl[(fn,) + combo] = t.num()
     goal = []
